@@ -552,6 +552,12 @@ Definition dstep (g : digraph) (o : dop) : digraph * out :=
   end.
 Definition drun (g : digraph) (ops : list dop) : digraph := fold_left (fun g o => fst (dstep g o)) ops g.
 
+(* DynamicBayesianNetwork.add_cpds(cpd, ...): every argument is validated first (scope inside the node set),
+   only then are all of them stored: a rejected call stores nothing.  A CPD is (identifier, scope). *)
+Definition dbn_add_cpds (g : digraph) (cs new : list (nat * list node)) : list (nat * list node) * out :=
+  if forallb (fun c => forallb (fun x => memn x (nodes g)) (snd c)) new
+  then (cs ++ new, Ok) else (cs, Err EValue).
+
 (* ------------------------------------------------------------------ JunctionTree *)
 (* an undirected networkx Graph: [edges] holds each edge once, as inserted; traversals use both
    orientations.  A clique node is interned to a nat; its variable list travels with the operation. *)
